@@ -2,7 +2,7 @@
 From Coq Require Import Reals List Lra.
 From AhrsLib Require Import Base Rot Atan2.
 From AhrsGen Require Import C10gen_R.
-From AhrsProps Require Import C10_defs C10_euler C10_axang C10_explog C10_seq C10_ctor C10_mlog.
+From AhrsProps Require Import C10_defs C10_expdefs C10_euler C10_axang C10_explog C10_pow C10_state C10_seq C10_ctor_rpy C10_ctor_euler_zyx C10_ctor_xyz C10_mlog.
 Import ListNotations.
 Open Scope R_scope.
 
@@ -80,6 +80,28 @@ Proof.
   exact (versor_of_unit _ _ _ _ U).
 Qed.
 Print Assumptions C10_power_laws.
+
+(* an exponent of integer type gives the same power as the same value as a float: q ** -1 is the conjugate *)
+Theorem C10_integer_exponents : forall w x y z, w*w + x*x + y*y + z*z = 1 -> 0 < x*x + y*y + z*z ->
+  C10_pow_int_m1_R w x y z = C10_pow_R w x y z (-1) /\ C10_pow_int_m1_R w x y z = Val (qconj [w; x; y; z]).
+Proof.
+  intros w x y z Hq Hv. split; [|exact (pow_int_m1_conj w x y z Hq Hv)].
+  rewrite (pow_spec w x y z _ Hq Hv), (pow_int_m1_spec w x y z Hq Hv). do 2 f_equal. ring.
+Qed.
+Print Assumptions C10_integer_exponents.
+
+(* the conversions do not modify their object: after exponential / exp / logarithm / to_axang / to_angles / ** on a (non-normalised)
+   Quaternion object, np.asarray(q) and q.A still hold the numbers it was built from, on every path *)
+Theorem C10_object_unchanged : forall w x y z a,
+  unchanged 4 (C10_state_exp_R w x y z) w x y z /\ unchanged 4 (C10_state_exp_syn_R w x y z) w x y z /\
+  unchanged 4 (C10_state_log_R w x y z) w x y z /\ unchanged 4 (C10_state_axang_R w x y z) w x y z /\
+  unchanged 3 (C10_state_angles_R w x y z) w x y z /\ unchanged 4 (C10_state_pow_R w x y z a) w x y z.
+Proof.
+  intros w x y z a. split; [exact (state_exp_unchanged w x y z)|]. split; [exact (state_exp_syn_unchanged w x y z)|].
+  split; [exact (state_log_unchanged w x y z)|]. split; [exact (state_axang_unchanged w x y z)|].
+  split; [exact (state_angles_unchanged w x y z)|exact (state_pow_unchanged w x y z a)].
+Qed.
+Print Assumptions C10_object_unchanged.
 
 (* elementary rotations and Euler sequences: ordered products, each factor and the product in SO(3) *)
 Theorem C10_rot_seq_is_product : forall a b c,
